@@ -1719,11 +1719,11 @@ Proof.
   apply (T_insert_loop t sn) with (v := w); auto.
   - split; [apply mk_node_isnode|unfold node_id; now apply mk_node_key].
   - intros s' lv1 Hs' Hser1 Hst1. apply (Sm_free_all_tlk t sn); [exact Hs'|]. intros s'' Hs''. apply Sm_clear.
-    eapply T_finish_read; eauto; try reflexivity. now apply tlk_free1.
+    eapply T_finish_read; eauto; try reflexivity; try (now apply tlk_free1).
   - intros s' lv1 Hs' Hser1 Hst1. apply (Sm_free_all_tlk t sn); [exact Hs'|]. intros s'' Hs''. apply Sm_clear.
-    eapply T_finish_lin; eauto; try reflexivity. now apply tlk_free1.
+    eapply T_finish_lin; eauto; try reflexivity; try (now apply tlk_free1).
   - intros lv1 Hser1. apply (Sm_free_all_tlk t sn); [exact Hs2|]. intros s'' Hs''. apply Sm_clear.
-    eapply T_out_of_fuel; eauto. now apply tlk_free1.
+    eapply T_out_of_fuel; eauto; try (now apply tlk_free1).
 Qed.
 
 (** programs of insert / erase / contains *)
@@ -1746,8 +1746,8 @@ Qed.
 Lemma T_thread t fuel os lv :
   (t < 64)%nat -> Forall op_ok' os -> vser lv = 0%nat -> vst lv = @Idle SetSpec -> SAFE t (thread_prog fuel t os) lv.
 Proof.
-  intros Hlt Hok Hser Hst. unfold thread_prog. apply (Sm_nx t a_begin); [nxl| |apply vle_refl].
-  intros _. apply (T_run_ops t fuel Hlt os Hok); [rewrite Hser; split; reflexivity|exact Hst].
+  intros Hlt Hok Hser Hst. assert (H : SAFEm t (thread_prog fuel t os) lv); [|apply H, vle_refl].
+  unfold thread_prog. snx. apply (T_run_ops t fuel Hlt os Hok); [rewrite Hser; split; reflexivity|exact Hst].
 Qed.
 
 End WithNodes.
